@@ -130,7 +130,7 @@ func oraclePartial(x *xcase, r *xresult) (bool, string) {
 
 func runC13(c *Ctx) {
 	c.Rule("scripted peer failing every single chunk index and seeded sets of indices (status codes 4, 2, 3, 9), replies in order and permuted, for ReadAt, Read, WriteTo, WriteAt, Write, ReadFrom, ReadFromWithConcurrency " +
-		"x packet sizes {1,2,3,4} x concurrency {1,2,3} x concurrent reads/writes on/off; non-trivial = at least one failing chunk is reached and at least two chunks are involved")
+		"x packet sizes {1,2,3,4} x concurrency {1,2,3} x concurrent reads/writes on/off; a third of the seeded cases run against the request server (allocator off/on) over a backend whose ReadAt/WriteAt fails at the planned request offsets (a failing ReadAt returns its partial bytes with the error); non-trivial = at least one failing chunk is reached and at least two chunks are involved")
 	apis := []string{"readat", "read", "writeto", "writeat", "write", "readfrom", "readfromc"}
 	codes := []uint32{4, 2, 3, 9}
 	budget := 1400
@@ -173,7 +173,7 @@ func runC13(c *Ctx) {
 		p := 1 + c.Rng.Intn(4)
 		conc := 1 + c.Rng.Intn(3)
 		x := &xcase{api: apis[c.Rng.Intn(len(apis))], p: p, conc: conc, cr: c.Rng.Intn(2) == 0, cw: c.Rng.Intn(2) == 0, fst: c.Rng.Intn(2) == 0,
-			maxtx: 32768, src: []string{"len", "opaque", "limited"}[c.Rng.Intn(3)], backend: []string{"peer", "peerperm"}[c.Rng.Intn(2)], regular: true}
+			maxtx: 32768, src: []string{"len", "opaque", "limited"}[c.Rng.Intn(3)], backend: []string{"peer", "peerperm", "peer", "peerperm", "req", "reqalloc"}[c.Rng.Intn(6)], regular: true, ro: c.Rng.Intn(2) == 0}
 		x.flen = c.Rng.Intn(6*p + 2)
 		x.n = c.Rng.Intn(6*p + 2)
 		x.off = []int{0, 0, 1, p, p + 1, 2 * p}[c.Rng.Intn(6)]
@@ -182,6 +182,9 @@ func runC13(c *Ctx) {
 		for i := 0; i < nf; i++ {
 			k := c.Rng.Intn(7)
 			plan[uint64(x.off+k*p)] = codes[c.Rng.Intn(4)]
+			if x.backend == "req" || x.backend == "reqalloc" {
+				plan[uint64(x.off+k*p)] = codes[c.Rng.Intn(3)] // statuses a handler's error can produce
+			}
 		}
 		if isWriteAPI(x.api) {
 			x.wfail = plan
